@@ -633,7 +633,7 @@ def gen_tree_manual(rng, algo, nettype):
     return finish(rng, cfg, [leaf, host], [{"name": "router", "tree": [2, 1], "auto_connect": False}], conns, shuffle=False)
 
 
-def gen_degree_mesh(rng, algo, nettype, degree):
+def gen_degree_mesh(rng, algo, nettype, degree, double_eject=False):
     """a row of three routers whose port count is not five: degree 4 has no Eject port (endpoints sit on the
     North ports), degree 6/7 has spare local ports"""
     aw = 48
@@ -646,7 +646,8 @@ def gen_degree_mesh(rng, algo, nettype, degree):
     if degree >= 6 and algo != "XY":     # a numbered local port has no XY coordinate: spare ports stay free there
         io = mk_endpoint(rng, nettype, alloc, "io", force_role="dual")
         eps.append(io)
-        conns.append({"src": "io", "dst": "router", "dst_idx": [1, 0], "dst_dir": 5})
+        # double_eject: the second local endpoint names the Eject port as well (floogen refuses: port taken)
+        conns.append({"src": "io", "dst": "router", "dst_idx": [1, 0], "dst_dir": "Eject" if double_eject else 5})
     return finish(rng, cfg, eps, [{"name": "router", "array": [3, 1], "degree": degree}], conns, shuffle=False)
 
 
